@@ -390,3 +390,7 @@ Proof.
   do 3 eexists. split; [reflexivity|]. split; [reflexivity|]. split; [reflexivity|].
   destruct (xq_cmp va vb); cbn [is_Eq]; tauto.
 Qed.
+
+(* a double differs from a rational (used to state the rounding defect with values) *)
+Definition f64_value_is (f : f64) (v : Q) : bool :=
+  match f64_to_Q f with Some q => Qeq_bool q v | None => false end.
